@@ -25,6 +25,8 @@ REPO = os.environ.get('VERIF_REPO', '/repo')
 PY = os.environ.get('VERIF_PYTHON', '/venv/bin/python')
 NCPU = int(os.environ.get('VERIF_JOBS', '16'))
 KF_FILE = os.path.join(VERIF, 'KNOWN_FINDINGS.txt')
+# developer runs against a scratch tree write their outputs elsewhere
+OUT = os.environ.get('VERIF_OUT', VERIF)
 
 
 def prop_module(pid):
@@ -180,7 +182,7 @@ def write_evidence(pid, tier, seed, level, coverage, wall, violations,
           'wall_s': round(wall, 2), 'violations': violations}
     if extra:
         ev.update(extra)
-    d = os.path.join(VERIF, 'evidence')
+    d = os.path.join(OUT, 'evidence')
     os.makedirs(d, exist_ok=True)
     path = os.path.join(d, '%s.json' % pid)
     with open(path + '.tmp', 'w') as f:
@@ -195,7 +197,7 @@ def case_hash(obj):
 
 
 def write_replay(pid, res, kind):
-    d = os.path.join(VERIF, 'replays', pid)
+    d = os.path.join(OUT, 'replays', pid)
     os.makedirs(d, exist_ok=True)
     path = os.path.join(d, '%s_%s.json' % (kind, case_hash(res.get('desc'))))
     with open(path, 'w') as f:
